@@ -140,6 +140,10 @@ def run(tier, replay_file=None):
             if len(R.violations) >= 20:
                 break
     R.cov["write_faults_placed"] = lost_placed
+    # (f) two stepping requests in flight at the same time: whatever the schedule, when both have been answered the store holds the
+    # session they were answered from (otherwise a server lost right then would resume one acknowledged step earlier)
+    from . import c18
+    R.cov["concurrent_request_schedules_store_checked"] = c18.store_race(R, quick)
     if not quick and h2:
         # torn write at every byte offset of the state file, for one history with a Tear followed by a Crash
         for hist in h2:
